@@ -5,7 +5,8 @@
 //!        12 MinidumpMemoryInfoList (stream bytes)   2 MinidumpLinuxMaps (maps text)
 //!        3 MinidumpUnloadedModuleList     4 FUNC records   41 STACK CFI INIT records
 //!        5 line records of one FUNC    13-17 Memory64 / Unified* views    18 MinidumpModuleList::read (stream bytes)
-//!        19 MinidumpUnloadedModuleList::read (stream bytes)    42/43 STACK WIN frame-data / FPO tables
+//!        19 MinidumpUnloadedModuleList::read (stream bytes)   21 / 22 MinidumpMemoryList / MinidumpMemory64List ::read (stream bytes)
+//!           42/43 STACK WIN frame-data / FPO tables
 use minidump::*;
 use minidump_common::traits::IntoRangeMapSafe;
 use range_map::Range;
@@ -237,6 +238,50 @@ fn run(line: &str) -> String {
             }
             for &q in &qs {
                 gets.push(list.modules_at_address(q).map(|md| md.raw.checksum.to_string()).collect());
+            }
+        }
+        21 => {
+            // MinidumpMemoryList::read from MINIDUMP_MEMORY_LIST bytes: u32 count, then 16-byte descriptors
+            // {start_of_memory_range u64, data_size u32, rva u32}; `all` is an 80-byte file image.  The rva of entry i is
+            // 0 (null: the region reader refuses it) when its tag is 0, else 1 + i, so a region's rva names its entry.
+            let all: Vec<u8> = vec![0u8; 80];
+            let mut bytes: Vec<u8> = vec![];
+            bytes.extend_from_slice(&(ents.len() as u32).to_le_bytes());
+            for (i, &(b, s, v)) in ents.iter().enumerate() {
+                bytes.extend_from_slice(&b.to_le_bytes());
+                bytes.extend_from_slice(&(s as u32).to_le_bytes());
+                bytes.extend_from_slice(&(if v == 0 { 0u32 } else { 1 + i as u32 }).to_le_bytes());
+            }
+            let list = MinidumpMemoryList::read(&bytes, &all, scroll::LE, None).expect("memory list read");
+            for r in list.by_addr() {
+                table.push(format!("{}-{}:{}", r.base_address, r.base_address + r.size - 1, r.desc.memory.rva - 1));
+            }
+            for &q in &qs {
+                gets.push(list.memory_at_address(q).map(|r| vec![(r.desc.memory.rva - 1).to_string()]).unwrap_or_default());
+            }
+        }
+        22 => {
+            // MinidumpMemory64List::read from MINIDUMP_MEMORY64_LIST bytes: u64 count, u64 base rva (16), then 16-byte
+            // descriptors {start_of_memory_range u64, data_size u64}; the regions lie back to back in the 80-byte `all`.
+            // Every region is kept (or the whole read fails: ERR;;), so a region's position in iter() names its entry.
+            let all: Vec<u8> = vec![0u8; 80];
+            let mut bytes: Vec<u8> = vec![];
+            bytes.extend_from_slice(&(ents.len() as u64).to_le_bytes());
+            bytes.extend_from_slice(&16u64.to_le_bytes());
+            for &(b, s, _) in ents.iter() {
+                bytes.extend_from_slice(&b.to_le_bytes());
+                bytes.extend_from_slice(&s.to_le_bytes());
+            }
+            let list = match MinidumpMemory64List::read(&bytes, &all, scroll::LE, None) {
+                Ok(l) => l,
+                Err(_) => return "ERR;;".to_string(),
+            };
+            let pos = |r: &MinidumpMemory64| list.iter().position(|x| std::ptr::eq(x, r)).expect("region of the list");
+            for r in list.by_addr() {
+                table.push(format!("{}-{}:{}", r.base_address, r.base_address + r.size - 1, pos(r)));
+            }
+            for &q in &qs {
+                gets.push(list.memory_at_address(q).map(|r| vec![pos(r).to_string()]).unwrap_or_default());
             }
         }
         13 | 14 | 15 => {
